@@ -867,6 +867,8 @@ def Array(
                 _start = stream.tell()
                 try:
                     _array.append(cls.element_type.decode(stream))
+                    if stream.tell() == _start:
+                        raise DataError("zero-width elements, the length of the array is undefined")
                 except BufferEmptyError as err:
                     if stream.tell() != _start:
                         # buffer ended inside an element, not between elements
